@@ -165,6 +165,12 @@ func main() {
 	witnesses(c)
 	for i := 0; i < nWorlds; i++ {
 		runWorld(c, r.Fork(), i)
+		if i%4 == 0 { // existing nodes that every daemonset fits, daemon pods running on some of them, tight pending pods
+			wr := r.Fork()
+			w := sk.GenDaemonTight(wr)
+			c.Count(fmt.Sprintf("B.daemon-tight.nodes=%d.pods=%d", len(w.Nodes), min(len(w.Pods), 4)))
+			judgeWorld(c, w, sk.RunCfg{Workers: 1, IgnorePreferences: wr.Bool()}, -1, false)
+		}
 	}
 	c.Meta.Extra = map[string]interface{}{
 		"seconds": map[string]float64{"unit": tA.Seconds(), "steps": (tS - tA).Seconds(), "solve": (time.Since(t0) - tS).Seconds()},
